@@ -108,6 +108,33 @@ func (fr *frame) call(instr *ssa.Call, c *ssa.CallCommon, st *State) Value {
 			}
 		}
 	}
+	// dynamic call with a declared behavioural contract (function values kept in data structures)
+	if !c.IsInvoke() && fr.contract != nil && fr.contract.DynCall != nil && fr.prefix == "" {
+		dc := fr.contract.DynCall
+		like := fx.E.P.Funcs[dc.Like]
+		lct := fx.E.effectiveContract(dc.Like)
+		if like != nil && lct != nil {
+			// the callee value must be one of the functions sharing that contract
+			fv := fr.val(c.Value)
+			var alts []Term
+			var names []string
+			for n, f := range fx.E.P.Funcs {
+				if types.Identical(f.Signature, like.Signature) && sameContract(fx.E.effectiveContract(n), lct) {
+					names = append(names, n)
+				}
+			}
+			sort.Strings(names)
+			for _, n := range names {
+				alts = append(alts, Eq(fv.T, fx.funcID(n)))
+			}
+			o := fx.enc.Oblige(fx.root, "dyncall", "target", Implies(fr.curReach, Or(alts...)), fr.pos(pos))
+			o.Facet = "S"
+			fr.assume(Or(alts...))
+			fr.dynSelf = fv.T
+			defer func() { fr.dynSelf = "" }()
+			return fr.callContract(like, lct, args, st, resT, pos, nil)
+		}
+	}
 	// dynamic call
 	m := fx.E.callMods(c)
 	what := "function value"
@@ -265,7 +292,7 @@ func (fr *frame) curReachNarrow(c Term) {
 func (fr *frame) callContract(callee *ssa.Function, ct *Contract, args []Value, st *State, resT types.Type, pos token.Pos, cc *ssa.CallCommon) Value {
 	fx := fr.fx
 	name := FuncName(callee)
-	sub := &frame{fx: fx, fn: callee, name: name, params: fr.bindParams(callee, args), level: fr.level, prefix: fr.prefix, depth: fr.depth, curReach: fr.curReach}
+	sub := &frame{fx: fx, fn: callee, name: name, params: fr.bindParams(callee, args), level: fr.level, prefix: fr.prefix, depth: fr.depth, curReach: fr.curReach, selfT: fr.dynSelf}
 	pre := st.Clone()
 	if callee.Signature.Recv() != nil && len(args) > 0 && !ct.Extern && fr.ifaceMods == nil {
 		if _, ok := under(callee.Params[0].Type()).(*types.Pointer); ok {
